@@ -1193,6 +1193,9 @@ fn encode_error(c: &mut Case, cx: &Ctx, tname: &str, dbg: &str, text: &str) {
     let variant = dbg.split(|ch: char| !ch.is_alphanumeric()).next().unwrap_or("");
     if variant == "InvalidOffset" || variant == "InvalidMipmapSize" {
         c.violate(cx.sig("encode-rejects-converted", variant), format!("encoder rejects the texture image_to_blp produced: {text}"), json!({"err": text}));
+    } else if (variant == "WidthTooHigh" || variant == "HeightTooHigh") && cx.spec.w <= 65535 && cx.spec.h <= 65535 {
+        // the encoder's own stated limit is 65,535 in each dimension: a size within it is not a dimension refusal
+        c.violate(cx.sig("encode-refuses-dimensions-within-its-limit", variant), format!("encoder refuses a {}x{} texture although it states support up to 65,535: {text}", cx.spec.w, cx.spec.h), json!({"err": text, "w": cx.spec.w, "h": cx.spec.h}));
     } else {
         c.count(&format!("encode_refused|{tname}"), 1);
         c.note(json!({"encode_refused": text, "target": tname}));
